@@ -30,8 +30,8 @@ Step(ev) ==
   IF ev.a # "init" /\ ev.obs.ret = "skipped" THEN Skipped(ev) ELSE
   CASE ev.a = "init"      -> Reset
     [] ev.a = "new"       -> New(ev.arg.h, ev.arg.data, ev.arg.imm = 1, ev.arg.nc = 1)
-    [] ev.a = "settyped"  -> SetTyped(ev.arg.h, ev.arg.data, ev.arg.off, ev.arg.zero, ev.arg.fail)
-    [] ev.a = "bufset"    -> BufSet(ev.arg.h, ev.arg.pos, ev.arg.data, ev.arg.zero, ev.arg.fail)
+    [] ev.a = "settyped"  -> SetTyped(ev.arg.h, ev.arg.data, ev.arg.off, ev.arg.zero, ev.arg.fail, ev.arg.fm)
+    [] ev.a = "bufset"    -> BufSet(ev.arg.h, ev.arg.pos, ev.arg.data, ev.arg.zero, ev.arg.fail, ev.arg.fm)
     [] ev.a = "bufcut"    -> BufCut(ev.arg.h, ev.arg.off, ev.arg.n)
     [] ev.a = "bufinsert" -> BufInsert(ev.arg.h, ev.arg.pos, ev.arg.data)
     [] ev.a = "insert"    -> \E v \in {0, 1} : ArrInsert(ev.arg.h, ev.arg.pos, ev.arg.data, ev.arg.fail, v)
